@@ -177,7 +177,6 @@ pub fn pool_secret(idx: u32) -> [u8; 32] {
     s
 }
 
-pub const POOL_SIZE: u32 = 24;
 
 impl KeySpec {
     pub fn secret(&self) -> [u8; 32] {
@@ -326,9 +325,6 @@ impl<K: EnrKey> Faulty<K> {
     }
     pub fn arm_absolute(&self, at: u64) {
         self.st.lock().unwrap().fail_at.insert(at);
-    }
-    pub fn disarm(&self) {
-        self.st.lock().unwrap().fail_at.clear();
     }
     pub fn calls(&self) -> u64 {
         self.st.lock().unwrap().calls
